@@ -24,7 +24,12 @@ def run_case(c):
     env["holder"] = RW.Holder(pop.get(c["target"])) if c["target"] in pop else None
     env["meth"] = RW.meth
     m = c["method"]
-    if c["path"] == "dotted" and c["target"] in pop:
+    recvname = "this" if m == "other" else "self"
+    if c["path"] == "selfcap" and c["target"] in pop and m != "prop":
+        text = f"{c['target']}.{m}({recvname}) > v"              # the receiver parameter named explicitly
+    elif c["path"] == "selfalias" and c["target"] in pop and m != "prop":
+        text = f"{c['target']}.{m}({recvname} as who, x) > v"
+    elif c["path"] == "dotted" and c["target"] in pop:
         text = f"holder.obj.{m} > v"
     else:
         text = f"{c['target']}.{m} > v"
